@@ -83,34 +83,19 @@ Theorem C10_filler_lines_have_no_tokens : forall f : filler, tokens (strip_comme
 Proof. exact filler_line_tokens. Qed.
 Print Assumptions C10_filler_lines_have_no_tokens.
 
-(* ------------------------------------------------------------------ refuted by the faithful model *)
+(* ------------------------------------------------------------------ formerly refuted, now repaired in the code *)
 
 Definition lit_0_5 : declit :=
   {| dl_sign := []; dl_int := ["0"]; dl_dot := true; dl_frac := ["5"]; dl_exp := None |}.
 Definition lit_0_0 : declit :=
   {| dl_sign := []; dl_int := ["0"]; dl_dot := true; dl_frac := ["0"]; dl_exp := None |}.
 
-Lemma wf_lit_0_5 : wf_api_lit lit_0_5.
-Proof. repeat split; simpl; repeat constructor; discriminate. Qed.
-Lemma wf_lit_0_0 : wf_api_lit lit_0_0.
-Proof. repeat split; simpl; repeat constructor; discriminate. Qed.
-
-(* mps_monomial_poly_set_coefficient_s stores the right VALUE for "0.5" but not in canonical form
-   (5/10): the stored mpq is not what "reproduced exactly" promises to GMP's mpq functions.
-   Replayed on the real code by the check (finding noncanonical:api/set_coefficient_s). *)
-Theorem C10_api_noncanonical_refuted :
-  exists l, wf_api_lit l /\ api_coeff_value (render_declit l) = Some (declit_value l)
-            /\ raw_canonical (api_coeff_raw (render_declit l)) = false.
-Proof. exists lit_0_5. split; [exact wf_lit_0_5|]. vm_compute. split; reflexivity. Qed.
-Print Assumptions C10_api_noncanonical_refuted.
-
-(* the rational string built for "0.0" is "/10", which is not a rational string at all (the API
-   survives because a failed mpq_set_str leaves 0/1) *)
-Theorem C10_equiv_string_wellformed_refuted :
-  exists l, wf_api_lit l /\ match equiv_rational_string (render_declit l) with
-                            | Some s => mpq_str_raw s = None | None => False end.
-Proof. exists lit_0_0. split; [exact wf_lit_0_0|]. vm_compute. reflexivity. Qed.
-Print Assumptions C10_equiv_string_wellformed_refuted.
+(* mps_monomial_poly_set_coefficient_s now canonicalises: whatever the string, the stored pair is a
+   canonical fraction (unless the string carries a zero denominator, where the real code divides by zero) *)
+Theorem C10_api_stores_canonical : forall s : text,
+  snd (api_coeff_raw s) <> 0%Z -> raw_canonical (api_coeff_raw s) = true.
+Proof. exact api_coeff_raw_canonical. Qed.
+Print Assumptions C10_api_stores_canonical.
 
 Definition plain_style : style :=
   {| st_header := []; st_explicit := (false, false, false, false); st_opts := []; st_sep := [];
@@ -123,20 +108,11 @@ Definition cheb_2_4 : polydesc :=
                   {| t_idx := 1; t_re := NInt 1 0; t_im := NInt 0 0 |} ];
      d_bterms := [] |}.
 
-Lemma wf_cheb_2_4 : wf cheb_2_4.
-Proof.
-  unfold wf, cheb_2_4; cbn. repeat split; auto; try discriminate.
-  all: repeat constructor; cbn; auto; try discriminate.
-Qed.
-
-(* the Chebyshev reader does not canonicalise: 2/4 is stored as 2/4, the file denotes 1/2.
-   Replayed on the real code by the check (finding noncanonical:chebyshev-reader). *)
-Theorem C10_parse_render_chebyshev_rational_refuted :
-  exists st pi d, wf d /\ parse (render st pi d) <> Poly (denote d).
-Proof.
-  exists plain_style, [], cheb_2_4. split; [exact wf_cheb_2_4|]. vm_compute. discriminate.
-Qed.
-Print Assumptions C10_parse_render_chebyshev_rational_refuted.
+Example C10_example_former_defects_repaired :
+  api_coeff_raw (render_declit lit_0_5) = (1, 2)%Z
+  /\ equiv_rational_string (render_declit lit_0_0) = Some (kw "0/10")
+  /\ parse (render plain_style [] cheb_2_4) = Poly (denote cheb_2_4).
+Proof. vm_compute. repeat split; reflexivity. Qed.
 
 (* ------------------------------------------------------------------ examples (non-vacuity, what the round trip looks like) *)
 
